@@ -94,6 +94,10 @@ func runSolver(ctx context.Context, sp solverSpec, file string, timeoutS, seed i
 		first = l
 		break
 	}
+	if strings.Contains(s, "(error") && !strings.Contains(s, "model is not available") {
+		// an ill-formed query must never count as an answer, whatever the solver prints afterwards
+		return "error: " + strings.TrimSpace(firstN(s[strings.Index(s, "(error"):], 300)), s, el
+	}
 	switch first {
 	case "unsat", "sat", "unknown", "timeout":
 	default:
@@ -156,6 +160,12 @@ func solveOne(e *Exec, o *Obligation, dir string, timeoutS int, seed int, all bo
 				cancel()
 				break
 			}
+		}
+	}
+	for _, a := range res.Answers {
+		if strings.HasPrefix(a, "error") && !all {
+			// one solver rejected the query as ill-formed: nothing any other solver says about it is trusted
+			res.Status = ""
 		}
 	}
 	if res.Status == "" {
